@@ -316,6 +316,26 @@ Fixpoint enc_rval (v : rval) : sexp :=
                              match l with [] => [] | (k, x) :: r => SL [SStr k; enc_rval x] :: go r end) fs)
   end.
 
+(** a null somewhere in the response data: an error was caught at a nullable position *)
+Fixpoint rval_has_null (v : rval) : bool :=
+  match v with
+  | RNull => true
+  | RLeaf | RTypename _ => false
+  | RList x => rval_has_null x
+  | RObj fs => (fix go (l : list (name * rval)) : bool :=
+                  match l with [] => false | (_, x) :: r => rval_has_null x || go r end) fs
+  end.
+
+Definition sdoc_exec_classes (fx : fixes) (S : schema) (F : features) (d : sdoc) : list string :=
+  match snd (run fx S F [] (sdoc_prog (sdoc_fuel d) d)) with
+  | Done (_, Some (Some (log, v))) =>
+      (match v with
+       | None => ["sdoc-error-reached-the-top"]
+       | Some x => if rval_has_null x then ["sdoc-error-caught-at-nullable"] else []
+       end ++ (if is_nil log then [] else ["sdoc-resolvers-invoked"]))%list
+  | _ => []
+  end.
+
 Fixpoint insert_nat (x : nat) (l : list nat) : list nat :=
   match l with
   | [] => [x]
@@ -621,6 +641,7 @@ Definition req_classes (S : schema) (F G : features) (r : list sexp) : list stri
                  | Some d =>
                      (if valid then "sdoc-valid" else "sdoc-invalid") ::
                      ((if is_nil (d_frags d) then [] else ["sdoc-with-named-fragments"]) ++
+                     sdoc_exec_classes fixed S F d ++
                      match model_sdoc fixed S F d, model_sdoc fixed S G d with
                      | Some x, Some y =>
                          if sexp_eqb x y then []
